@@ -17,7 +17,7 @@ const ruleC09 = "filter expressions from existence tests, comparisons (literal o
 	"Non-trivial: >=2 members with different verdicts for some atom and the expression has a logical operator or a comparison. Distinct = distinct (expression, document)."
 
 func drawC09(rt *rapid.T) *Case {
-	g := gen.NewG(rt, gen.PathOpts{Funcs: gen.Uniform(rt, "funcs", 4) == 0, FilterHeavy: true, LogicDepth: 3, FilterDepth: 2})
+	g := gen.NewG(rt, gen.PathOpts{Funcs: gen.Uniform(rt, "funcs", 3) == 0, ReuseFuncs: true, OperandFuncPct: 35, FilterHeavy: true, LogicDepth: 3, FilterDepth: 2})
 	q := g.Query(3, 1)
 	n := gen.Uniform(rt, "members", 7)
 	asObj := gen.Uniform(rt, "asobj", 3) == 0
